@@ -113,6 +113,7 @@ def run(chk: Check):
         else:
             ws = [Fraction(1, d)] * d if weights is None else [Fraction(float(w)) for w in weights]
             tot = Fraction(0)
+            mag = Fraction(0)
             for i in range(d):
                 col = [sim[j, :, i] for j in range(e)]
                 if ftags is not None and FILTERS[ftags[i]] is not None:
@@ -122,7 +123,8 @@ def run(chk: Check):
                 else:
                     l1 = Fraction(float(col[0][0])) * 3 - Fraction(float(real[0, i]))
                 tot += l1 * ws[i]
-            if not impl.startswith("ok") or abs(Fraction(float(v)) - tot) > abs(tot) * Fraction(1, 2 ** 45) + Fraction(1, 2 ** 60):
+                mag += abs(l1 * ws[i])
+            if not impl.startswith("ok") or abs(Fraction(float(v)) - tot) > mag * Fraction(1, 2 ** 45) + Fraction(1, 2 ** 60):
                 chk.fail(f"compute_loss = {impl}, weighted sum of the single-coordinate values = {float(tot)!r}", case)
             # permutation of coordinates with weights and filters
             if d >= 2 and weights is not None and impl.startswith("ok"):
@@ -158,13 +160,37 @@ def run(chk: Check):
                 v1 = float(loss.compute_loss(sim, real))
                 if sim.tobytes() != s0 or real.tobytes() != r0:
                     chk.fail(f"{name}: compute_loss modified its inputs", case)
-                loss.compute_loss(sim2, real2)                       # interleave other data
+                v2 = float(loss.compute_loss(sim2, real2))           # interleave other data
+                fresh2 = float(mk(coordinate_weights=weights).compute_loss(sim2, real2))
+                if f2h(v2) != f2h(fresh2) and not (v2 != v2 and fresh2 != fresh2):
+                    chk.fail(f"{name}: the value depends on earlier evaluations on the same object: a used object gives {v2!r} on a second data set, a fresh one {fresh2!r}", case)
                 v1b = float(loss.compute_loss(sim, real))
                 if f2h(v1) != f2h(v1b) and not (v1 != v1 and v1b != v1b):
                     chk.fail(f"{name}: the value depends on earlier evaluations on the same object: {v1!r} then {v1b!r}", case)
                 fresh = float(mk(coordinate_weights=weights).compute_loss(sim, real))
                 if f2h(fresh) != f2h(v1) and not (fresh != fresh and v1 != v1):
                     chk.fail(f"{name}: a used object gives {v1!r}, a fresh one {fresh!r}", case)
+                # weight linearity on the real classes: the multi-coordinate value is the weighted sum of the values fresh objects give
+                # on each coordinate alone; a zero weight removes the coordinate; permuting coordinates with weights changes nothing
+                if name != "likelihood" and v1 == v1 and abs(v1) != float("inf"):
+                    ws = np.full(d, 1.0 / d) if weights is None else weights
+                    singles = [float(mk().compute_loss(sim[:, :, i:i + 1], real[:, i:i + 1])) for i in range(d)]
+                    tot = float(sum(w * l for w, l in zip(ws, singles)))
+                    tol = 1e-9 * max(1.0, sum(abs(w * l) for w, l in zip(ws, singles)))
+                    if not abs(tot - v1) <= tol:
+                        chk.fail(f"{name}: multi-coordinate value {v1!r} != weighted sum {tot!r} of the single-coordinate values {singles}", case)
+                    if d >= 2:
+                        z = rng.randrange(d)
+                        wz = np.array(ws, dtype=float); wz[z] = 0.0
+                        vz = float(mk(coordinate_weights=wz).compute_loss(sim, real))
+                        keep = [i for i in range(d) if i != z]
+                        vk = float(mk(coordinate_weights=wz[keep]).compute_loss(sim[:, :, keep], real[:, keep]))
+                        if not abs(vz - vk) <= 1e-9 * max(1.0, abs(vk)):
+                            chk.fail(f"{name}: a zero weight on coordinate {z} gives {vz!r}, removing the coordinate gives {vk!r}", case)
+                        perm = list(range(d)); rng.shuffle(perm)
+                        vq = float(mk(coordinate_weights=np.array(ws, dtype=float)[perm]).compute_loss(sim[:, :, perm], real[:, perm]))
+                        if not abs(vq - v1) <= 1e-9 * max(1.0, abs(v1)):
+                            chk.fail(f"{name}: permuting coordinates with their weights changed the loss: {v1!r} -> {vq!r}", case)
                 # ensemble permutation
                 if e >= 2:
                     perm = list(range(e)); rng.shuffle(perm)
